@@ -290,8 +290,11 @@ def run_history(hidx, hist, doc, seed, keep_tag="", max_eval=MAX_EVAL):
             step["files_on_disk"] = len(disk)
             if i == 0:
                 if disk != fresh:
-                    raise RuntimeError("history %s: two runs into empty directories differ (non-deterministic plugin?)" % hist["name"])
-                prev = fresh
+                    # two runs of the same model into empty directories differ: the plugin is not a function of the model (not C17's
+                    # business); the directory comparison is then no oracle for this history - only the label check remains
+                    res["nondeterministic"] = True
+                    step["two_fresh_runs_differ"] = True
+                prev = disk
                 res["steps"].append(step)
                 continue
             # how much of the earlier content does this evolution touch?
@@ -380,7 +383,7 @@ def run_history(hidx, hist, doc, seed, keep_tag="", max_eval=MAX_EVAL):
             for fn in badnames:
                 res["problems"].append({"kind": "history: file name is not <MessageClass>-<True|False>-<hash>.json", "file": fn, **hdesc})
             judged_bad = {p_["file"] for p_ in res["problems"] if "file" in p_}
-            for what, fns, text in (("stale", stale, "history: stale file kept (not part of the vectors of the current metamodel)"),
+            for what, fns, text in () if res.get("nondeterministic") else (("stale", stale, "history: stale file kept (not part of the vectors of the current metamodel)"),
                                     ("missing", missing, "history: vector of the current metamodel not written"),
                                     ("differing", differ, "history: file content differs from a fresh-directory run")):
                 for fn in fns[:1]:
